@@ -170,6 +170,7 @@ class GhostReMatch(object):
 class InitGlobals(Unit):
     prop = 'C08'
     name = 'C08.initglobals.proof'
+    modifies_library_state = True      # initglobals is THE function whose frame is the module-level tables
     int_mode = 'int'
     functions = ('minecraft.initglobals',)
     trusted = ('list / dict / OrderedDict semantics (append, in, item assignment, clear, items order)', 're.match as a predicate on ids')
